@@ -866,8 +866,7 @@ func genFileCase(rng *rand.Rand) fileCase {
 				for _, later := range names[hi+1 : nh] {
 					if later == "f" {
 						h.body = bin("&&", &E{K: "call", X: ident("f"), Args: []*E{intLit("8", 8)}, Pkg: true}, h.body)
-						fc.pkgBefore = true
-						outsideModel = true // the model looks helpers up by name
+						fc.pkgBefore = true // (the model gets the identifier under a name no helper has, see model.go)
 					}
 				}
 			}
@@ -966,7 +965,6 @@ func genFileCase(rng *rand.Rand) fileCase {
 				if defs[3].name == q {
 					qe.Pkg = true
 					fc.pkgArg = true
-					outsideModel = true // the model looks helpers up by name
 				}
 				hk = &helper{name: "hk", params: []param{{"u", "dsl.Var"}}}
 				hkArgs := []*E{qe, ident("u")}
@@ -1306,7 +1304,7 @@ func main() {
 		c.A = observe(t, c.SrcA)
 		c.B = observe(t, c.SrcB)
 		c.IREqual = c.A.IR != "" && c.A.IR == c.B.IR
-		if !strings.Contains(tw.helper, "m[name]") && !tw.rejected { // the model assumes that the matcher is indexed by a literal ([consistent]) and looks helpers up by name
+		if !strings.Contains(tw.helper, "m[name]") { // the model assumes that the matcher is indexed by a literal ([consistent])
 			c.Model = modelOf(c.SrcA)
 		}
 		enc.Encode(c)
